@@ -4,7 +4,7 @@
 From Coq Require Import List ZArith Bool Lia Permutation.
 From SVC Require Import Base.AMap Base.Res Base.Dec Model.Types Model.Pricing
   Model.Handlers Model.EndBlock Model.Step Proofs.Inv Proofs.Lemmas Proofs.ReqLemmas
-  Proofs.DecProofs Proofs.PricingProofs Proofs.InvEscrow.
+  Proofs.DecProofs Proofs.PricingProofs Proofs.InvEscrow Proofs.CtxOps.
 Import ListNotations.
 Open Scope Z_scope.
 
@@ -151,7 +151,8 @@ Lemma I_req_ctx_ops cfg s o s' :
   wf_cfg cfg -> Inv cfg s -> wf_op s o -> handle cfg s o = Ok s' ->
   match o with
   | OCall _ _ _ _ _ _ _ _ _ _ _ _ _ | OModCall _ _ _ _ _ _ _ _ _ _ _ _ _ _
-  | OPause _ _ _ | OStart _ _ _ | OKill _ _ _ | OUpdateCtx _ _ _ _ _ _ _ _ => True
+  | OPause _ _ _ | OStart _ _ _ | OKill _ _ _ | OUpdateCtx _ _ _ _ _ _ _ _
+  | OModUpdate _ _ _ _ _ _ _ _ | OModPause _ _ | OModStart _ _ | OModKill _ _ => True
   | _ => False end ->
   I_req s'.
 Proof.
@@ -169,7 +170,7 @@ Proof.
       put_ctx_tac.
   - unfold h_kill in H. inv_ok H. auth_inv. subst s'.
     put_ctx_tac.
-  - unfold h_update_ctx in H. inv_ok H. auth_inv. subst s'.
+  - unfold h_update_ctx, update_ctx_tail in H. inv_ok H. auth_inv. subst s'.
     match goal with Hx : (if coins_empty cap then _ else _) = Ok ?rc1 |- _ =>
       assert (Hrc1 : c_counter rc1 = c_counter a /\ c_breq rc1 = c_breq a /\ c_bresp rc1 = c_bresp a
                      /\ c_bdone rc1 = c_bdone a /\ c_svc rc1 = c_svc a /\ c_super rc1 = c_super a)
@@ -178,6 +179,14 @@ Proof.
     put_ctx_tac.
     all: repeat match goal with |- context [if ?b then _ else _] => destruct b end;
          try destruct provs; cbn; assumption.
+  - (* module update *) apply h_mod_update_gen in H. destruct H as (rc & t & capo & G & _ & _ & ->).
+    pose proof (upd_thr_fixed rc t provs capo timeout freq total) as Hf. cbv zeta in Hf.
+    destruct Hf as (F1 & _ & _ & F4 & _ & F6 & F7 & F8 & _ & F10 & _).
+    put_ctx_tac; assumption.
+  - (* module pause *) apply h_mod_pause_spec in H. destruct H as (rc & G & _ & _ & _ & ->). put_ctx_tac.
+  - (* module start *) apply h_mod_start_spec in H. destruct H as (rc & G & _ & _ & ->). unfold started.
+    destruct (negb (has c (expq_h s)) && negb (has c (newq_h s))); put_ctx_tac.
+  - (* module kill *) apply h_mod_kill_spec in H. destruct H as (rc & G & _ & _ & ->). put_ctx_tac.
 Qed.
 
 (* ---- respond ---- *)
